@@ -394,16 +394,22 @@ func runProgram(seed uint64, i int, shrunkClasses map[string]bool) []caseRec {
 		}
 		tags = []string{"stream:c05-idiom", "family:" + fam}
 	case i%3 == 1:
-		p = g.Idiom()
+		// concat is left to C02: its known finding concat-aliasing (two concats onto the same array share
+		// the backing store) would show up here as a difference with the reference semantics
+		for p = g.Idiom(); p.ConcatCount() > 0; p = g.Idiom() {
+		}
 		if rng.Intn(2) == 0 {
-			p = g.Mutate(p)
+			if q := g.Mutate(p); q.ConcatCount() == 0 {
+				p = q
+			}
 		}
 		for j, f := range p.Forms {
 			p.Forms[j] = sprinkle(f, rng, 20)
 		}
 		tags = []string{"stream:refgen-idiom"}
 	default:
-		p = g.Program()
+		for p = g.Program(); p.ConcatCount() > 0; p = g.Program() {
+		}
 		for j, f := range p.Forms {
 			p.Forms[j] = sprinkle(f, rng, 25)
 		}
